@@ -78,6 +78,9 @@ class FakeTransport(asyncio.Transport):
         self.closes = []        # virtual times of close() calls
         self.peer = peer
         self.protocol = None
+        self._paused = False    # read side: see feed() / pause_reading() below
+        self._inbox = bytearray()
+        self.pause_log = []
 
     def _now(self):
         loop = self._loop or asyncio.get_event_loop()
@@ -101,6 +104,49 @@ class FakeTransport(asyncio.Transport):
     def written(self):
         return b''.join(b for _, b in self.writes)
 
+    # ---- read side with flow control (additive: callers that hand bytes to `protocol.data_received` themselves and sessions that
+    # never pause are not affected).  `feed(data)` is what the peer's bytes do on a real transport: they reach `data_received`
+    # only while the transport is reading; while reading is paused they wait (kernel buffer) and are delivered, coalesced, by a
+    # later loop iteration after `resume_reading()`; after `close()` nothing is delivered any more.
+    MAX_READ = 256 * 1024       # a selector transport reads at most this many bytes per `recv`
+
+    def pause_reading(self):
+        self._paused = True
+        self.pause_log.append(('pause', self._now()))
+
+    def resume_reading(self):
+        if not self._paused:
+            return
+        self._paused = False
+        self.pause_log.append(('resume', self._now()))
+        if self._inbox:
+            (self._loop or asyncio.get_event_loop()).call_soon(self._deliver_pending)
+
+    def is_reading(self):
+        return not self._paused and not self.closes
+
+    def pending_inbound(self):
+        """bytes the peer has sent that have not reached `data_received` (reading paused)"""
+        return len(self._inbox)
+
+    def feed(self, data):
+        """the peer sends `data`; returns True if it was handed to the protocol now, False if it waits for `resume_reading()`"""
+        if self.closes or self.protocol is None:
+            return False
+        if self._paused or self._inbox:
+            self._inbox.extend(data)
+            return False
+        self.protocol.data_received(bytes(data))
+        return True
+
+    def _deliver_pending(self):
+        box = self._inbox
+        if box and not self._paused and not self.closes:
+            chunk = bytes(box[:self.MAX_READ])
+            del box[:self.MAX_READ]
+            self.protocol.data_received(chunk)
+            if box and not self._paused:
+                (self._loop or asyncio.get_event_loop()).call_soon(self._deliver_pending)
 
 async def turns(k=1):
     for _ in range(k):
